@@ -273,14 +273,25 @@ impl Vm {
     let arg_count = self.read_short() as usize;
     let args = self.fiber.stack_slice(arg_count);
 
+    // the segments are the results of str methods, a user defined
+    // one may hand back something other than a string
     let mut length: usize = 0;
     for arg in args {
-      length += arg.to_obj().to_str().len();
+      if_let_obj!(ObjectKind::String(segment) = (*arg) {
+        length += segment.len();
+      } else {
+        return self.runtime_error_from_str(
+          self.builtin.errors.type_,
+          "Interpolated values must have a str method that returns a string.",
+        );
+      });
     }
 
     let mut buffers = String::with_capacity(length);
     for arg in args {
-      buffers.push_str(&arg.to_obj().to_str())
+      if_let_obj!(ObjectKind::String(segment) = (*arg) {
+        buffers.push_str(&segment)
+      });
     }
 
     self.fiber.drop_n(arg_count);
